@@ -273,6 +273,25 @@ class C11(Prop):
     quick_budget_s = 90
 
     # ---------------------------------------------------------------------------------------------
+    def generated(self, ctx):
+        """one source-level fact the hand model depends on is read off the working tree (kind G): where esl_gumbel_FitComplete()
+        evaluates the first bracketing test of its bisection fallback"""
+        import os, re
+        src = open(os.path.join(ctx.src, "esl_gumbel.c")).read()
+        i = src.index("esl_gumbel_FitComplete(double *x")
+        body = src[i:src.index("esl_gumbel_FitCompleteLoc(double *x", i)]
+        m = re.search(r"lawless416\(x, n, (\w+), &fx, &dfx\);[^;]*?\n\s*while \(fx > 0\.\)", body)
+        if not m or m.group(1) not in ("right", "lambda"):
+            raise RuntimeError("esl_gumbel_FitComplete(): cannot find the bracketing evaluation of the bisection fallback")
+        flag = "true" if m.group(1) == "right" else "false"
+        return {"EaselModel/Generated/C11Src.lean":
+                "/-! Regenerated from the working tree's esl_gumbel.c by props/c11.py (`SPEC.generated`) on every run. -/\n"
+                "namespace EaselModel.Stats\n"
+                "/-- does `esl_gumbel_FitComplete()` evaluate the first bracketing test of its bisection fallback at `right` (as `FitCensored` does)\n"
+                "    or at the lambda left over by Newton/Raphson? (read off the source: `lawless416(x, n, right|lambda, &fx, &dfx)` before `while (fx > 0.)`) -/\n"
+                "def fitCompleteBracketsAtRight : Bool := %s\n"
+                "end EaselModel.Stats\n" % flag}
+
     def canonical(self, line):
         if line.startswith("fault") or line.startswith("atexit"):
             return "fault"
@@ -1273,8 +1292,12 @@ class C11(Prop):
             return None
         if not (math.isfinite(fit) and math.isfinite(truth)): return None
         gap = (truth - fit) / (abs(truth) + n)
-        cal = self.__dict__.setdefault("_truth", {}); cal[kind] = max(cal.get(kind, -1.0), gap)
-        if gap > self.TRUTH_TOL[kind]:
+        tolr = self.TRUTH_TOL[kind]
+        if kind in ("gumbel", "gumbelcens"):
+            # theorem gumbel_*_fit_near_optimal: logL(any) <= logL(fit) + n*1e-5*|lambda' - lambda|
+            tolr += n * 1.01e-5 * abs(lam0 - ps[1]) / (abs(truth) + n)
+        cal = self.__dict__.setdefault("_truth", {}); cal[kind] = max(cal.get(kind, -1.0), gap - (tolr - self.TRUTH_TOL[kind]))
+        if gap > tolr:
             return "%s fit (n=%d): logL at the fit %r is BELOW logL %r at the generating parameters (mu=%r, lambda=%r, tau=%r)" % (kind, n, fit, truth, mu0, lam0, tau0)
         return None
 
